@@ -172,6 +172,7 @@ func c07Job(t *testing.T, raw json.RawMessage) (any, error) {
 				}
 				// reference model
 				bal := model[op.Acct]
+				refundOverflow := false
 				known := !tg.None && op.SubT == 0 // (the same digits under another Subscription-Id-Type name no IMSI subscriber)
 				var wantGrant int64 = -1
 				wantFUI := false
@@ -187,6 +188,9 @@ func c07Job(t *testing.T, raw json.RawMessage) (any, error) {
 						nb = bal - int64(op.Amt)
 					case op.Action == 1:
 						nb = bal + int64(op.Amt)
+						if bal >= 0 && int64(op.Amt) > math.MaxInt64-bal {
+							refundOverflow = true // the sum does not fit the signed 64-bit balance: whatever is stored is not bal + amount
+						}
 					}
 				}
 				model[op.Acct] = nb
@@ -202,10 +206,16 @@ func c07Job(t *testing.T, raw json.RawMessage) (any, error) {
 					}
 				}
 				sort.Strings(wantBals)
-				if strings.Join(after, " ") != strings.Join(wantBals, " ") {
+				if refundOverflow && known {
+					// positively recognised known defect: quota += refund wraps around the signed 64-bit balance
+					out.Finds = append(out.Finds, Finding{"stored-balance/refund-beyond-int64", fmt.Sprintf("%s: stored balances %v -> %v (balance + refund does not fit 64 bits and wrapped)", what, before, after)})
+				} else if strings.Join(after, " ") != strings.Join(wantBals, " ") {
 					cls := "known-target"
 					if !known {
 						cls = "unknown-target"
+					}
+					if refundOverflow {
+						cls = "refund-beyond-int64" // positively recognised known defect
 					}
 					out.Finds = append(out.Finds, Finding{"stored-balance/" + cls + "/" + actionNames[op.Action], fmt.Sprintf("%s: stored balances %v -> %v, expected %v", what, before, after, wantBals)})
 				}
@@ -306,10 +316,8 @@ func init() {
 								if act != 0 && ty != 2 && ty != 4 && !(act == 1 && ty == 3) {
 									continue // the other actions: UPDATE, EVENT (and refund with TERMINATION) only
 								}
-								// stay inside int64 for the exact result
-								if !unknown && b >= 0 && act == 1 && int64(amt) > math.MaxInt64-b {
-									continue
-								}
+								// (a refund whose sum with the balance does not fit int64 is explored as well, but only as the last
+								// request of a history: what is stored afterwards is not a balance any more)
 								if !unknown && b >= 0 && act == 0 && ty == 3 && int64(amt) > b && int64(amt) > b+31 {
 									continue // termination debits beyond the balance: only small overdrafts (the stored balance turns negative)
 								}
